@@ -2,6 +2,13 @@ import HailVerif.Model.Cache
 import HailVerif.Model.DriverUtil
 open HailVerif HailVerif.DriverUtil HailVerif.Cache
 
+/-- values: `N` = Python's None, a number = any other value (the harness encodes '' as 900001 and [] as 900002) -/
+def showVal : Val → String
+  | none => "N"
+  | some n => toString n
+
+def parseVal (t : String) : Option Val := if t == "N" then some none else t.toNat?.map some
+
 def insertBy {α : Type} (lt : α → α → Bool) (x : α) : List α → List α
   | [] => [x]
   | y :: r => if lt x y then x :: y :: r else y :: insertBy lt x r
@@ -12,20 +19,20 @@ def sortBy {α : Type} (lt : α → α → Bool) (l : List α) : List α := l.fo
 sorted by caller (`caller:key`), then what this step did: loads started (sorted), caller outcomes sorted by caller -/
 def showState (s : State) (e : List Ev) : String :=
   let ents := sortBy (fun (a b : Entry) => a.key < b.key) s.entries
-  let c := joinWith "," (ents.map fun x => s!"{x.key}:{x.val}:{x.expiry}")
+  let c := joinWith "," (ents.map fun x => s!"{x.key}:{showVal x.val}:{x.expiry}")
   let f := joinWith "," ((sortBy (· < ·) (ikeys s.inflight)).map toString)
   let ws : List (Nat × Nat) := s.inflight.flatMap fun p => p.2.map fun c => (c, p.1)
   let w := joinWith "," ((sortBy (fun (a b : Nat × Nat) => a.1 < b.1) ws).map fun p => s!"{p.1}:{p.2}")
   let starts := sortBy (· < ·) (e.filterMap fun | .started k => some k | _ => none)
   let outs : List (Nat × String) := e.filterMap fun
-    | .hit c _ v _ => some (c, s!"hit:{c}:{v}")
+    | .hit c _ v _ => some (c, s!"hit:{c}:{showVal v}")
     | .joined c _ => some (c, s!"wait:{c}")
-    | .loaded c _ v _ => some (c, s!"got:{c}:{v}")
+    | .loaded c _ v _ => some (c, s!"got:{c}:{showVal v}")
     | .failed c _ => some (c, s!"fail:{c}")
     | .cancelled c => some (c, s!"cancel:{c}")
     | _ => none
   let ev := joinWith "," (starts.map (fun k => s!"start:{k}") ++ (sortBy (fun (a b : Nat × String) => a.1 < b.1) outs).map (·.2))
-  s!"t={s.now} c={c} f={f} w={w} e={ev}"
+  s!"t={s.now} c={c} f={f} w={w} i=ok e={ev}"
 
 /-- lines: `cfg LIFETIME SLOTS` (new cache), `lookup c k`, `ok k v`, `fail k`, `cancel c`, `adv dt`; `err` = not a behaviour -/
 def handle (st : Option (Config × State)) (line : String) : Option (Config × State) × String :=
@@ -39,10 +46,10 @@ def handle (st : Option (Config × State)) (line : String) : Option (Config × S
     | some l, some n => (some (⟨l, n⟩, init), showState init [])
     | _, _ => (st, "bad-op")
   | [cmd, a, b], some (cfg, s) =>
-    match cmd, a.toNat?, b.toNat? with
-    | "lookup", some c, some k => go cfg s (.lookup c k)
-    | "ok", some k, some v => go cfg s (.loadOk k v)
-    | _, _, _ => (st, "bad-op")
+    match cmd, a.toNat?, b.toNat?, parseVal b with
+    | "lookup", some c, some k, _ => go cfg s (.lookup c k)
+    | "ok", some k, _, some v => go cfg s (.loadOk k v)
+    | _, _, _, _ => (st, "bad-op")
   | [cmd, a], some (cfg, s) =>
     match cmd, a.toNat? with
     | "fail", some k => go cfg s (.loadFail k)
